@@ -4,7 +4,7 @@ func init() {
 	props["C01"] = propSpec{
 		Engine: "streamsim", Level: "exploration",
 		QuickS: 35, ThoroughS: 900, DetSamples: 32, DetSamplesT: 300,
-		Rule: "one run = one (corpus script, encoding, UTF16Pos flag, delivery pattern, mode); modes: chunked full delivery, EOF at every byte offset, I/O error at every byte offset (every offset for inputs <= 1500 bytes quick / 6000 thorough, 48 sampled offsets otherwise), import through a chunking/failing fs.FS; each delivery is compared with one-shot delivery of the same bytes. Distinct = distinct hash of (script, bytes, flags, pattern); all runs inject stream faults so all are non-trivial.",
+		Rule: "one run = one (input, encoding, UTF16Pos flag, delivery pattern, mode); inputs: every script the repository carries, as UTF-8, as UTF-16LE with a byte-order mark, with tape-chosen byte mutations, or 'token soup' (lines of short random sequences over a per-run subset of the parser's special tokens, in key, value, map, array and edge-group position); modes: chunked full delivery, EOF at every byte offset, I/O error at every byte offset (every offset for inputs <= 1500 bytes quick / 6000 thorough, 48 sampled offsets otherwise), import through a chunking/failing fs.FS; each delivery is compared with one-shot delivery of the same bytes. Distinct = distinct hash of (script, bytes, flags, pattern); all runs inject stream faults so all are non-trivial.",
 		Assumptions: []string{
 			"stream-delivery slice of C01 only: the input-space half (all byte strings) is sampled by corpus + mutations, not decided",
 			"a failing reader is sticky (returns the same error on every later call), like a broken file or pipe",
@@ -19,7 +19,7 @@ func init() {
 	props["C48"] = propSpec{
 		Engine: "crashsim", Level: "fault_enumeration",
 		QuickS: 40, ThoroughS: 900, DetSamples: 6, DetSamplesT: 40, Exhaustive: true, NeedsD2Bin: true, WatchdogS: 900,
-		Rule: "one run = one generated scenario (`d2 fmt` on 1-2 unformatted sources of 28 B - 300 KiB quick / 2 MiB thorough, corpus or generated, multi-byte runes; or a single-board `d2 in.d2 out.svg` with an existing short/long/empty/absent previous output, optionally in a not-yet-existing sub-directory, with --sketch/--theme variations). Per scenario the file-system operations of the uninterrupted command are recorded and EVERY one of them is a crash point (process killed just before it), plus 3 points inside every write (after 1, n/2, n-1 bytes) and one after the last operation: exhaustive per scenario. evaluations = crash-point executions; distinct = distinct (scenario, operation index, bytes written); a scenario is non-trivial when the command really rewrites the target.",
+		Rule: "one run = one generated scenario (`d2 fmt` on 1-2 unformatted sources of 28 B - 300 KiB quick / 2 MiB thorough, corpus or generated, multi-byte runes; or a single-board `d2 in.d2 out.svg` with an existing short/long/empty/absent previous output, optionally in a not-yet-existing sub-directory, with --sketch/--theme variations; symlinked targets; the process's TMPDIR is a second simulated file system, and in half of the scenarios a rename or link between the two fails with EXDEV as between two mounts). Per scenario the file-system operations of the uninterrupted command are recorded and EVERY one of them is a crash point (process killed just before it), plus 3 points inside every write (after 1, n/2, n-1 bytes) and one after the last operation: exhaustive per scenario. evaluations = crash-point executions; distinct = distinct (scenario, operation index, bytes written); a scenario is non-trivial when the command really rewrites the target.",
 		Assumptions: []string{
 			"'killed' = the process stops between two system calls or inside a write after k bytes; power loss / page-cache durability is not modelled (d2 issues no fsync and the property speaks of a killed process)",
 			"crash-freeze: from the crash point on every mutating system call of the process fails without executing; reads still succeed (they cannot change the disk)",
@@ -61,13 +61,13 @@ func init() {
 	props["C44"] = propSpec{
 		Engine: "watchsim", Level: "exploration",
 		QuickS: 75, ThoroughS: 1500, DetSamples: 24, DetSamplesT: 200,
-		Rule: "one run = the real `d2 --watch` in a synctest bubble with 0-5 simulated browser clients (connect at any time, read, stall, close, drop, drop mid-handshake), 0-8 saves of the input and optionally of an imported file in three editor styles (truncate+write in chunks, write temp+rename over, rename away+create, with torn intermediate states), simulated inotify (duplicates, dropped write events, transiently failing re-watch). The tape picks which parked goroutine or actor proceeds and when the clock advances. After the last save faults stop and the run continues for 60 simulated seconds; then per-client order and final delivery are checked. Non-trivial = at least one client and one save; distinct = distinct hash of the full decision sequence.",
+		Rule: "one run = the real `d2 --watch` in a synctest bubble with 0-5 simulated browser clients (connect at any time, read, stall, close, drop, drop mid-handshake), 0-12 saves of the input and (half of the runs) of an imported file and a file imported by that one, in three editor styles (truncate+write in chunks, write temp+rename over, rename away+create, with torn intermediate states), saves that drop and later restore the import, a browser tab navigating between the boards of a multi-board input (page GETs that switch the rendered board and request a compile), simulated inotify (duplicates, dropped write events, transiently failing re-watch, errors on the Errors channel). The tape picks which parked goroutine or actor proceeds and when the clock advances. After the last save - and, as checkpoints, after a third of the other saves - faults stop and the run continues for 60 simulated seconds; then per-client order (every client's frames are a subsequence, with repetitions, of the results the compile loop stored) and final delivery (latest content of every file, board navigated to last) are checked. Non-trivial = at least one client and one save; distinct = distinct hash of the full decision sequence.",
 		Assumptions: []string{
 			"environment: the last save leaves the file present; modification times increase with every save; only plain Write events are ever dropped (the watch stays and the 10 s poll can still see the change); fs event loss that also loses the watch (inotify queue overflow) is outside the property's quantifier",
 			"duplicates are allowed (the statement allows them and the real watcher re-broadcasts on its poll tick)",
 			"final delivery is demanded only of clients that are still connected; a client the simulator kept from reading for >= 4 simulated seconds may be disconnected by the server (5 s write timeout of the heartbeat's ping, 30 s for results)",
 			"liveness bound once faults stop: 60 simulated seconds",
-			"page GETs (board switching) are not simulated",
+			"a page GET is only started while no compile is in progress (handleRoot takes the mutex the compile loop holds across a compile, and a goroutine blocked on a mutex keeps a synctest bubble from quiescing); the mutex serialises the two anyway",
 		},
 		RealStub: watchRealStub,
 	}
@@ -88,7 +88,7 @@ var pipeRealStub = map[string]string{
 	"d2lib.Compile, d2layouts (nested/grid/sequence/near), dagre and ELK via goja": "real (C25)",
 	"d2svg, d2sketch, d2fonts, textmeasure":                                        "real (C25)",
 	"import file system":                                                           "in-memory fs.FS whose Open is a scheduling point",
-	"caller tasks":                                                                 "goroutines released one at a time by the simulator at stage boundaries (start, import, compile, layout per nested graph, render per board)",
+	"caller tasks":                                                                 "goroutines released one at a time by the simulator at stage boundaries (start, import, compile, layout per nested graph, render per board) and at about 12 600 statement-level scheduling points written into d2's pipeline packages by a source overlay (no change to /repo)",
 	"map iteration / select":                                                       "runtime seam: a function of the tape, re-derived at every release",
 	"reference":                                                                    "separate OS process, different seed, reversed order, no neighbours",
 }
@@ -97,9 +97,10 @@ func init() {
 	props["C08"] = propSpec{
 		Engine: "pipesim", Level: "exploration",
 		QuickS: 45, ThoroughS: 900, DetSamples: 12, DetSamplesT: 100, WatchdogS: 600,
-		Rule: "one run = one session: 1-3 task specs (scripts harvested from the repository's tests and data in index order plus random picks, or generated scripts with >=3 entries per collection; optional importable files), each executed 2-3 times as caller tasks whose stages the tape interleaves, optionally with font registrations in between, under a per-run map-order/select seam; every execution's canonical graph JSON or error list must equal every other execution of the same spec and a reference from a separate process under another seed. evaluations = executions + reference computations; distinct = distinct (spec, interleaving) pairs.",
+		Rule: "one run = one session: 1-3 task specs (scripts harvested from the repository's tests and data in index order plus random picks, or generated scripts with >=3 entries per collection; optional importable files), each executed 2-3 times (5-6 when state shared between executions was found) as caller tasks that the tape interleaves in one of four modes drawn per session - at stage boundaries only; after a tape-chosen number of scheduling points of any kind; only right after stores to fields, elements and pointees; or directed at store sites (preferably ones that a profiling pass found to write memory that outlives an execution), where a second task is then run up to the same store and the first one continues - optionally with font registrations in between, under a per-run map-order/select seam; every execution's canonical graph JSON or error list must equal every other execution of the same spec and a reference from a separate process under another seed. evaluations = executions + reference computations; distinct = distinct (spec, interleaving) pairs.",
 		Assumptions: []string{
-			"the simulator serialises execution: it decides dependence on map order, call order, interleaving at stage boundaries, process identity and history; it cannot observe a data race that needs two threads inside the same instructions (the compiler packages hold no synchronisation and no package-level state written after init)",
+			"the simulator serialises execution: one task runs at a time and can lose the CPU between any two statements of d2's own pipeline packages (scheduling points from cmd/yieldgen's source overlay: function and loop entries, branches, before and after stores through selectors, indexes and pointers), never while it holds a sync.Mutex/RWMutex (sync overlay), and never inside code of a dependency; effects that need two threads inside one statement or inside a dependency are not observable",
+			"if the rewritten tree does not build, the engine is built without the statement-level points, says so in its output, and interleaves at stage boundaries only",
 			"inputs are sampled (repository corpus + generator), not enumerated",
 		},
 		RealStub: pipeRealStub,
@@ -109,9 +110,24 @@ func init() {
 		QuickS: 90, ThoroughS: 1800, DetSamples: 4, DetSamplesT: 40, WatchdogS: 900,
 		Rule: "as C08 but through d2lib.Compile (dagre, ELK in ~10% of specs), d2exporter and d2svg.Render of every board, with sketch mode, theme, dark theme, pad and center drawn from the tape; the compared result is the SVG bytes of all boards. Scripts are limited to 2.5 KB quick / 20 KB thorough to bound layout time.",
 		Assumptions: []string{
-			"as C08; shared state that exists here (font registry under its mutex, goldmark instance, dagre plugin options) is exercised in every interleaving at stage granularity, not at instruction granularity",
+			"as C08; shared state that exists here (font registry under its mutex, goldmark instance, dagre plugin options) is exercised at stage and at statement granularity; a task holding a lock is never stopped",
 			"Math.random inside the bundled JS engines would draw from the seam (runtime.rand) and show as a cross-seed difference",
 		},
 		RealStub: pipeRealStub,
 	}
+}
+
+func init() {
+	props["C07"] = propSpec{
+		Engine: "streamsim", Level: "exploration",
+		QuickS: 30, ThoroughS: 900, DetSamples: 32, DetSamplesT: 300,
+		Rule: "import slice of C07. One run = d2compiler.Compile of index.d2 (imports of a generated file set in front of a harvested or minimal program) over a simulated file system: 1-4 importable files in nested directories whose import graph (spread imports, value imports, imports inside maps and layers, import keys, relative paths with '..', optional .d2 extension, cycles of every length, missing files, directories, absolute paths, malformed import statements) and bodies (globs, triple globs, substitutions and spread substitutions resolved by the importer or by nobody, classes, boards, nulls) come from the tape; every Open/Read is served one-shot or in tape-chosen chunks (1 byte ... 4097 bytes, empty reads, data together with EOF), fails at open, fails after k bytes, is a directory, or serves other content from the second open on. Compared against a reference model of the import graph and against one-shot delivery. Distinct = distinct (main, import graph).",
+		Assumptions: []string{
+			"slice: the file-system side of C07 (importable files, their delivery and failures, import cycles, termination counted in file-system operations: at most 4000 opens per compilation and 8*size+2000 reads per file). Totality over all programs is sampled only (harvested corpus in index order + snippets), and CPU time is not observed",
+			"a broken file stays broken: the fault kind is chosen per file, because the compiler opens some imports twice and rightly ignores a failure of the first, tentative open",
+			"the cycle oracle is applied only when the model knows every import (the harvested part of index.d2 contains no import of its own and the file parses)",
+		},
+		RealStub: map[string]string{"d2compiler.Compile, d2ir (imports, cycle detection, substitutions, globs), d2parser": "real", "fs.FS / fs.File": "simulated (tape-driven opens, chunking, failures, changing content)", "reference": "model of the import graph (depth-first search for a reachable cycle) + one-shot delivery of the same files"},
+	}
+	crashOracle["C07"] = "O07.1"
 }
